@@ -16,11 +16,15 @@ def model_check(rep, module, cfg, what, workers=16, timeout=3000, coverage=False
     return r
 
 
-def behaviours(rep, module, cfg, what, timeout=3000, maximal=True):
+def behaviours(rep, module, cfg, what, timeout=3000, maximal=True, override=None):
     """P2 source: every transition of the bounded model as path + event; returns the (maximal) event sequences."""
     tmp = os.path.join(tlc.SPEC, '_emit_%d_%s' % (os.getpid(), os.path.basename(cfg)))
     text = open(os.path.join(tlc.SPEC, cfg)).read()
     text = re.sub(r'^(INVARIANT|PROPERTY) .*$', '', text, flags=re.M)
+    for k, v in (override or {}).items():
+        text, n = re.subn(r'^(\s*%s\s*)(=|<-).*$' % k, r'\g<1>= %s' % v, text, flags=re.M)
+        if n != 1:
+            raise tlc.MachineryError('cannot override %s in %s' % (k, cfg))
     text += '\nACTION_CONSTRAINT Emit\n'
     with open(tmp, 'w') as f:
         f.write(text)
